@@ -161,7 +161,7 @@ func (r *runner) chains() {
 	if r.cfg.Thorough() {
 		maxLen, nRandom, coqStride = 3, 2, 60
 	}
-	rng := lib.NewRng(r.cfg.Seed ^ 0xC14)
+	rng := lib.NewRng(lib.NewRng(r.cfg.Seed^0xC14).Next())
 	n := 0
 	var rec func(chain []string, l int)
 	rec = func(chain []string, l int) {
